@@ -117,7 +117,7 @@ class ClohessyWiltshire(AnalyticalPropagator):
         for man in self.orbit.maneuvers:
             # Only the maneuvers located between the epoch of the initial orbit and the
             # requested date are applied
-            if isinstance(man, ImpulsiveMan) and self.orbit.date <= man.date <= date:
+            if isinstance(man, ImpulsiveMan) and self.orbit.date < man.date <= date:
                 orb = self._propagate(man.date, orb)
                 orb[3:] += man.dv(orb)
             elif (
